@@ -24,6 +24,28 @@ DESUGAR = True
 INLINE_HELPERS = True  # terms (and therefore operand fingerprints) are those of the inlined helper; the inventory itself is per body and static, so a helper's sites are listed once, in the helper
 
 HERE = os.path.dirname(os.path.abspath(__file__))
+def window_end(hi, coll):
+    """hi = p + k where p is a position found among coll.windows(w) with k <= w: a window starts at p, so p + w <= coll.len()"""
+    hi = strip_refs(hi)
+    if not (isinstance(hi, tuple) and hi and hi[0] == "binop" and hi[1] == "Add" and const_int(hi[3]) is not None and const_int(hi[3]) >= 0):
+        return False
+    pos = strip_refs(hi[2])
+    if not (isinstance(pos, tuple) and pos[0] == "field" and isinstance(pos[1], tuple) and pos[1][0] == "downcast" and is_call(strip_refs(pos[1][1]), "::rposition", "::position")):
+        return False
+    # the searched iterator is the windows themselves (possibly reversed, shortened or skipped into: the found index still counts windows)
+    it = strip_refs(call_args(strip_refs(pos[1][1]))[0])
+    for _ in range(6):
+        if isinstance(it, tuple) and it and it[0] == "loc" and len(it) > 2:
+            it = strip_refs(it[2])
+        elif is_call(it, "Iterator::rev", "Iterator::skip", "Iterator::take", "Iterator::by_ref", "IntoIterator>::into_iter") and call_args(it):
+            it = strip_refs(call_args(it)[0])
+        else:
+            break
+    w = [it] if is_call(it, "[T]>::windows") else []
+    return bool(w) and const_int(call_args(w[0])[1]) is not None and const_int(hi[3]) <= const_int(call_args(w[0])[1]) and \
+        mentions(call_args(w[0])[0], lambda u: u == coll or (u[0] == "field" and coll[0] == "field" and u[3] == coll[3]))
+
+
 PANICKING_LAST = {"unwrap", "expect", "unwrap_err", "expect_err", "index", "index_mut", "split_at", "split_at_mut", "split_off", "remove", "swap_remove", "drain",
                   "truncate", "windows", "chunks", "chunks_exact", "copy_from_slice", "step_by", "borrow", "borrow_mut", "abs", "pow", "from_digit", "swap", "rotate_left", "rotate_right",
                   "unwrap_unchecked", "get_unchecked", "from_utf8_unchecked", "insert_str", "replace_range", "repeat",
@@ -359,14 +381,8 @@ def discharge(ctx, body, p, ev, kind):
                     return "G4-index-from-range-to-min-len"
             return None
         if last in ("index", "drain") and ("[T]" in nm or "Vec" in nm) and agg_variant(ev.args[1]) and agg_variant(ev.args[1])[1] == "RangeTo":
-            coll = strip_refs(ev.args[0])
-            hi = agg_variant(ev.args[1])[2][0]
-            if isinstance(hi, tuple) and hi[0] == "binop" and hi[1] == "Add" and const_int(hi[3]) is not None:
-                pos = strip_refs(hi[2])
-                if isinstance(pos, tuple) and pos[0] == "field" and isinstance(pos[1], tuple) and pos[1][0] == "downcast" and is_call(strip_refs(pos[1][1]), "::rposition", "::position"):
-                    w = [x for x in subterms(pos[1][1]) if is_call(x, "[T]>::windows")]
-                    if w and const_int(call_args(w[0])[1]) == const_int(hi[3]) and mentions(call_args(w[0])[0], lambda u: u == coll or (u[0] == "field" and coll[0] == "field" and u[3] == coll[3])):
-                        return "G6-window-position-plus-window-size"
+            if window_end(agg_variant(ev.args[1])[2][0], strip_refs(ev.args[0])):
+                return "G6-window-position-plus-window-size"
         if last in ("index", "index_mut") and ("[T]" in nm or "Vec" in nm) and agg_variant(ev.args[1]) and agg_variant(ev.args[1])[1] in ("RangeTo", "RangeFrom", "Range"):
             # byte/element slices cut at the collection's own length or at min(.., its length, ..): always in range
             c0 = _lib.coll(ev.args[0])
@@ -590,6 +606,8 @@ def discharge(ctx, body, p, ev, kind):
             return "G7-nonzero-constant-size" if k is not None and k > 0 else None
         if last == "split_off":
             v, at = strip_refs(ev.args[0]), strip_refs(ev.args[1])
+            if window_end(at, deval(v)):
+                return "G6-window-position-plus-window-size"
             if is_call(at, "::len"):
                 # the length of a prefix &v[..k] of the same vector, seen through length-preserving views only: a validated str view of
                 # the same bytes (from_utf8(..) Ok payload) has the same length; a converted copy (from_utf8_lossy, to_lowercase ..) has not
